@@ -430,6 +430,8 @@ impl VersionManager {
             (1, 1)
         };
 
+        #[cfg(feature = "zipora_verif")]
+        crate::verif_hooks::sched_point(411);
         // Increment active reader count
         self.active_readers.fetch_add(1, Ordering::Relaxed);
 
@@ -474,6 +476,8 @@ impl VersionManager {
                 ));
             }
         }
+        #[cfg(feature = "zipora_verif")]
+        crate::verif_hooks::sched_point(401);
 
         // Acquire version under lock for synchronized levels
         let (version, min_version) = if self.concurrency_level.requires_synchronization() {
@@ -489,6 +493,8 @@ impl VersionManager {
             (1, 1)
         };
 
+        #[cfg(feature = "zipora_verif")]
+        crate::verif_hooks::sched_point(402);
         // Increment active writer count
         self.active_writers.fetch_add(1, Ordering::Relaxed);
 
@@ -545,12 +551,26 @@ impl VersionManager {
     /// This is a simplified version - in a full implementation, this would
     /// track individual token versions in a linked list.
     fn try_advance_min_version(&self) {
+        #[cfg(feature = "zipora_verif")]
+        crate::verif_hooks::sched_point(421);
         if self.active_readers.load(Ordering::Relaxed) == 0
             && self.active_writers.load(Ordering::Relaxed) == 0
         {
+            #[cfg(feature = "zipora_verif")]
+            crate::verif_hooks::sched_point(422);
             let current = self.current_version.load(Ordering::Acquire);
+            #[cfg(feature = "zipora_verif")]
+            crate::verif_hooks::sched_point(423);
             self.min_version.store(current, Ordering::Release);
         }
+    }
+
+    /// Verification shim: true while some thread holds `token_chain_mutex`, i.e. while an
+    /// operation that needs it would block.
+    #[cfg(feature = "zipora_verif")]
+    #[doc(hidden)]
+    pub fn verif_token_chain_locked(&self) -> bool {
+        self.token_chain_mutex.try_lock().is_err()
     }
 
     /// Returns version manager statistics.
